@@ -406,7 +406,7 @@ def check_forwarding(prog, ctx, rule="C13.D7", only_limits=False):
         for pn in [p for p in parent.params if p in init.params and p != parent.self_name]:
             n += 1
             v = _bound_to(call, parent, pn)
-            stored = any(isinstance(s_.value, ast.Name) and s_.value.id == pn for s_ in R.self_stores(init, pn))
+            stored = any(s_.kind == "plain" and isinstance(s_.value, ast.Name) and s_.value.id == pn for s_ in R.self_stores(init))
             ok = (isinstance(v, ast.Name) and v.id == pn) or stored
             ctx.check(ok, "C13.D7", R.key_of(init, "forwards:%s" % pn), init.loc(call),
                       "the constructor hands its `%s` on to the base constructor" % pn,
